@@ -170,6 +170,7 @@ package encoding
 //@   loop 0 invariant len(dst) == old(len(dst)) + 1 + range_i
 //@ func bytesDeltaOfDeltaToInt64s
 //@   mode bv
+//@   timeout 60
 //@   requires itemsCount >= 2
 //@   modifies dst[len(dst):cap(dst)]
 //@   ensures  result1 == nil ==> len(result0) == len(dst) + itemsCount
